@@ -162,8 +162,11 @@ class PreloadsSim(purity.PuritySim):
             got = self.world.failed[nid]
             self.log.append(ev="node", id=nid, kind=spec["kind"], outcome="raises " + got)
             refid = self.ref_of.get(nid)
-            if refid is not None and got not in OK_EXC and got != "DependencyFailed":
-                # P4: the factory must not turn an input the mapping formalism handles into a foreign failure
+            if refid is not None and got != "DependencyFailed":
+                # P4: the factory must not turn an input the mapping formalism handles into a failure.  An InversionException is
+                # accepted at READ time (a solver may legitimately give up on one path and not the other), but at CONSTRUCTION time
+                # the only library check is the w-tilde / noise-map consistency check, and every w-tilde table in this world was
+                # computed from an identical dataset - rejecting it changes the outcome.
                 exp, _ = self.ref.read(refid, None)
                 self.stats["checked"] += 1
                 if exp[0] == "built":
